@@ -383,7 +383,7 @@ Qed.
 Lemma set_cur_same (fr : frs) : set_cur fr (cur fr) = fr.
 Proof. destruct fr; reflexivity. Qed.
 Lemma seq_align_1 (o : Z) : seq_align 1 o = Some o.
-Proof. unfold seq_align, pymod. cbn [Z.eqb]. rewrite Z.mod_1_r. cbn [Z.sub Z.opp Z.add Z.pos_sub]. rewrite Z.mod_1_r, Z.add_0_r. reflexivity. Qed.
+Proof. unfold seq_align, pymod. change (1 =? 0) with false. cbv iota. rewrite !Z.mod_1_r. f_equal. lia. Qed.
 
 Lemma emit_block (sp : slots) (fr : frs) (B b : bytes) : block fr B ->
   exists fr', emit sp fr b = KOk sp fr' /\ block fr' (B ++ b).
@@ -430,3 +430,470 @@ Proof.
   assert (H0 : 0 <= i) by (destruct Ho; lia).
   apply (Hmin i); [lia|]. apply (occurs_at_app_l m b post i Ho). destruct Hoc as (_ & Hc & _). lia.
 Qed.
+
+(* ------------------------------------------------------------------------------------------ *)
+(** * Leaves                                                                                   *)
+(* ------------------------------------------------------------------------------------------ *)
+
+Lemma window_all (raw : bytes) (off : Z) (sbl : option Z) :
+  match sbl with Some l => l =? 0 | None => true end = true -> window raw off sbl = slice_from raw off.
+Proof. unfold window. destruct sbl as [l|]; [|reflexivity]. intros ->. reflexivity. Qed.
+
+Section Leaf.
+Variables (host : bool) (dl : dstate) (ct : ctab).
+
+(* what a consistent piece of a value does: `enc` is appended by pack, and parsed back in any context *)
+Lemma leaf_ok (cf : lconf) (c : cid) (name : fname) (l : leaf) (before : slots) (v : value) :
+  leaf_seq_ok l = true -> leaf_plain l = true -> leaf_consistent cf l before v = true ->
+  exists enc, wf_bytes enc /\
+    (forall sp fr B, slot_get sp name = Some v -> block fr B ->
+       exists fr', pack_leaf host dl cf c name l sp fr = KOk sp fr' /\ block fr' (B ++ enc)) /\
+    (forall pre rest su, ext ct before su ->
+       exists t, unpack_leaf host (pre ++ enc ++ rest) cf c name l su (blen pre) = Ok (v, blen pre + blen enc, t)).
+Proof.
+  intros Hok Hpl Hc. destruct l as [n signed fe d|size ic d|m incl d|r incl d|d]; cbn [leaf_seq_ok] in Hok; try discriminate.
+  - (* Int *)
+    destruct v as [z| | | | | | | | |]; cbn [leaf_consistent] in Hc; try discriminate.
+    apply andb_true_iff in Hc as [H1 H2]. apply Z.leb_le in Hok, H1. apply Z.ltb_lt in H2.
+    destruct (decode_encode n signed (is_bigendian (resolve_endianness fe (lc_endianness cf)) host) z Hok (conj H1 H2))
+      as (bs & Eenc & Hlen & Hwf & Edec).
+    exists bs. split; [exact Hwf|]. split.
+    + intros sp fr B Hs Hb. unfold pack_leaf. rewrite Hs. cbn [as_int]. rewrite Eenc. exact (emit_block sp fr B bs Hb).
+    + intros pre rest su _. cbn [unpack_leaf]. unfold int_unpack. subst n. rewrite slice_mid, Edec.
+      eexists. reflexivity.
+  - (* sized Data *)
+    destruct v as [| |b| | | | | | |]; cbn [leaf_consistent] in Hc; try discriminate.
+    apply andb_true_iff in Hc as [Hwf Hn]. apply wf_bytesb_ok in Hwf.
+    destruct (eval_int (cctx before) size) as [n|] eqn:En; [|discriminate]. apply Z.eqb_eq in Hn. subst n.
+    exists b. split; [exact Hwf|]. split.
+    + intros sp fr B Hs Hb. unfold pack_leaf. rewrite Hs. unfold data_pack. rewrite app_nil_r. exact (emit_block sp fr B b Hb).
+    + intros pre rest su Hx. cbn [unpack_leaf]. cbn [leaf_plain] in Hpl.
+      rewrite (eval_int_sim ct (cctx before) (mkctx (pre ++ b ++ rest) su (blen pre)) size (blen b) Hx Hpl En). cbn [bind].
+      pose proof (DataProofs.blen_nonneg pre). pose proof (DataProofs.blen_nonneg b). pose proof (DataProofs.blen_nonneg rest).
+      rewrite data_sized_complete by (rewrite ?DataProofs.blen_app; lia). rewrite slice_mid. eexists. reflexivity.
+  - (* marker delimited Data *)
+    destruct v as [| |b| | | | | | |]; cbn [leaf_consistent] in Hc; try discriminate.
+    apply andb_true_iff in Hc as [Hc Hf]. apply andb_true_iff in Hc as [Hwf Hsbl]. apply wf_bytesb_ok in Hwf.
+    destruct incl.
+    + destruct (find b m) as [c0|] eqn:F; [|discriminate]. apply Z.eqb_eq in Hf.
+      exists b. split; [exact Hwf|]. split.
+      * intros sp fr B Hs Hb. unfold pack_leaf. rewrite Hs. unfold data_pack. rewrite app_nil_r. exact (emit_block sp fr B b Hb).
+      * intros pre rest su _. cbn [unpack_leaf].
+        assert (Fw : find (window (pre ++ b ++ rest) (blen pre) (lc_sbl cf)) m = Some c0).
+        { rewrite (window_all _ _ _ Hsbl), slice_from_mid. exact (find_incl_ext b m rest c0 F). }
+        rewrite (data_marker_complete _ _ _ m true c0 Fw).
+        replace (blen pre + (c0 + blen m)) with (blen pre + blen b) by lia.
+        replace (blen pre + c0 + blen m) with (blen pre + blen b) by lia.
+        rewrite slice_mid. eexists. reflexivity.
+    + destruct (find (b ++ m) m) as [c0|] eqn:F; [|discriminate]. apply Z.eqb_eq in Hf. subst c0.
+      cbn [leaf_plain orb] in Hpl. apply wf_bytesb_ok in Hpl.
+      exists (b ++ m). split; [apply Forall_app; split; assumption|]. split.
+      * intros sp fr B Hs Hb. unfold pack_leaf. rewrite Hs. unfold data_pack. exact (emit_block sp fr B (b ++ m) Hb).
+      * intros pre rest su _. cbn [unpack_leaf]. rewrite <- (app_assoc b m rest).
+        assert (Fw : find (window (pre ++ b ++ m ++ rest) (blen pre) (lc_sbl cf)) m = Some (blen b)).
+        { rewrite (window_all _ _ _ Hsbl), slice_from_mid. exact (find_excl_ext b m rest F). }
+        rewrite (data_marker_complete _ _ _ m false (blen b) Fw). rewrite slice_mid.
+        rewrite DataProofs.blen_app. replace (blen pre + blen b + blen m) with (blen pre + (blen b + blen m)) by lia.
+        eexists. reflexivity.
+Qed.
+End Leaf.
+
+(* ------------------------------------------------------------------------------------------ *)
+(** * canon on packets and lists                                                               *)
+(* ------------------------------------------------------------------------------------------ *)
+
+Lemma canon_list (ct : ctab) (l : list value) : canon ct (VList l) = CList (map (canon ct) l).
+Proof. reflexivity. Qed.
+
+Lemma canon_pkt (ct : ctab) (c : cid) (s : slots) (k : cclass) : ct_get ct c = Some k ->
+  canon ct (VPkt c s) = CPkt c (map (fun f => (f, option_map (canon ct) (slot_get s f))) (field_names k)).
+Proof.
+  intros H. cbn [canon]. rewrite H. f_equal. apply map_ext. intros f. f_equal.
+  induction s as [|[g x] r IH]; [reflexivity|]. cbn [cslot_get slot_get].
+  destruct (fname_eqb f g); [reflexivity|exact IH].
+Qed.
+
+Lemma canon_pkt_eq (ct : ctab) (c : cid) (s s' : slots) (k : cclass) : ct_get ct c = Some k ->
+  (forall f, In f (field_names k) -> exists v v', slot_get s f = Some v /\ slot_get s' f = Some v' /\ canon ct v' = canon ct v) ->
+  canon ct (VPkt c s') = canon ct (VPkt c s).
+Proof.
+  intros H Hf. rewrite (canon_pkt ct c s k H), (canon_pkt ct c s' k H). f_equal. apply map_ext_in. intros f Hin.
+  destruct (Hf f Hin) as (v & v' & E & E' & Ec). rewrite E, E'. cbn [option_map]. rewrite Ec. reflexivity.
+Qed.
+
+Lemma vrel_list (ct : ctab) (l' l : list value) : Forall2 (vrel ct) l' l -> vrel ct (VList l') (VList l).
+Proof.
+  intros H. split.
+  - rewrite !canon_list. f_equal. induction H as [|a b x y [Hc _] _ IH]; [reflexivity|]. cbn [map]. rewrite Hc, IH. reflexivity.
+  - rewrite !er_list. f_equal. induction H as [|a b x y [_ He] _ IH]; [reflexivity|]. cbn [map]. rewrite He, IH. reflexivity.
+Qed.
+
+Definition only_fn (s : slots) : Prop := forall f v, slot_get s f = Some v -> exists j, f = FN j.
+Definition sub (sb s : slots) : Prop := forall f v, slot_get sb f = Some v -> slot_get s f = Some v.
+
+Lemma only_fn_set (s : slots) (i : Z) (v : value) : only_fn s -> only_fn (slot_set s (FN i) v).
+Proof.
+  intros H f w. rewrite slot_get_set. destruct (fname_eqb_spec f (FN i)) as [->|_]; [intros _; exists i; reflexivity|apply H].
+Qed.
+Lemma sub_set (sb s : slots) (f : fname) (v : value) : sub sb s -> slot_get s f = Some v -> sub (slot_set sb f v) s.
+Proof.
+  intros H Hv g w. rewrite slot_get_set. destruct (fname_eqb_spec g f) as [->|_]; [intros E; injection E as <-; exact Hv|apply H].
+Qed.
+
+(* the parser set attribute FN i to v' and otherwise touched only hidden attributes and FN i *)
+Lemma ext_update (ct : ctab) (sb su su' : slots) (i : Z) (v v' : value) :
+  ext ct sb su -> only_fn sb -> (forall j, j <> i -> slot_get su' (FN j) = slot_get su (FN j)) ->
+  slot_get su' (FN i) = Some v' -> vrel ct v' v -> ext ct (slot_set sb (FN i) v) su'.
+Proof.
+  intros Hx Hfn Hfr Hi Hv f w. rewrite slot_get_set. destruct (fname_eqb_spec f (FN i)) as [->|Hne].
+  - intros E. injection E as <-. exists v'. split; [exact Hi|exact Hv].
+  - intros E. destruct (Hfn f w E) as [j ->]. rewrite Hfr by congruence. exact (Hx (FN j) w E).
+Qed.
+
+Lemma elem_static_before (rc : cid -> slots -> bool) (cf : lconf) (e : elem) (b1 b2 : slots) (v : value) :
+  elem_static e = true -> elem_consistent rc cf e b1 v = elem_consistent rc cf e b2 v.
+Proof.
+  destruct e as [l|c' p|sel d]; cbn [elem_static]; try discriminate; [|reflexivity].
+  destruct l as [n sg fe d|size ic d|m incl d|r incl d|d]; try discriminate; try reflexivity.
+  destruct size as [w| | | | | | | | |]; try discriminate. destruct w; try discriminate. reflexivity.
+Qed.
+
+(* ------------------------------------------------------------------------------------------ *)
+(** * One level of nesting, the levels below being given                                       *)
+(* ------------------------------------------------------------------------------------------ *)
+
+(* a packet value of class c' : it has an encoding that pack appends and the parser reads back *)
+Definition pkt_ok (ct : ctab) (rec_pack : cid -> slots -> frs -> qres) (rec_unpack : bytes -> cid -> Z -> pres)
+                  (c' : cid) (s' : slots) : Prop :=
+  exists enc, wf_bytes enc /\
+    (forall fr B, block fr B -> exists v fr', rec_pack c' s' fr = QOk v fr' /\ block fr' (B ++ enc)) /\
+    (forall pre rest, exists s'' t,
+       rec_unpack (pre ++ enc ++ rest) c' (blen pre) = POk (VPkt c' s'') (blen pre + blen enc) t /\
+       canon ct (VPkt c' s'') = canon ct (VPkt c' s')).
+
+Section Level.
+Variables (host : bool) (dl : dstate) (ct : ctab).
+Variable rec_pack : cid -> slots -> frs -> qres.
+Variable rec_unpack : bytes -> cid -> Z -> pres.
+Variable rec_cons : cid -> slots -> bool.
+Variable lf : nat.
+Hypothesis HREC : forall c' s', rec_cons c' s' = true -> pkt_ok ct rec_pack rec_unpack c' s'.
+
+Lemma elem_ok (cf : lconf) (c : cid) (name : fname) (e : elem) (before : slots) (v : value) :
+  elem_plain e = true -> elem_consistent rec_cons cf e before v = true ->
+  exists enc, wf_bytes enc /\
+    (forall sp fr B, slot_get sp name = Some v -> block fr B ->
+       exists fr', pack_elem host dl rec_pack cf c name e sp fr = KOk sp fr' /\ block fr' (B ++ enc)) /\
+    (forall pre rest su, ext ct before su ->
+       exists v' t, unpack_elem host (pre ++ enc ++ rest) (rec_unpack (pre ++ enc ++ rest)) cf c name e su (blen pre)
+                    = FOk (slot_set su name v') (blen pre + blen enc) t /\ vrel ct v' v).
+Proof.
+  intros Hpl Hc. destruct e as [l|c' proto|sel d].
+  - cbn [elem_consistent] in Hc. apply andb_true_iff in Hc as [Hok Hc].
+    destruct (leaf_ok host dl ct cf c name l before v Hok Hpl Hc) as (enc & Hwf & Hp & Hu).
+    exists enc. split; [exact Hwf|]. split.
+    + intros sp fr B Hs Hb. cbn [pack_elem]. exact (Hp sp fr B Hs Hb).
+    + intros pre rest su Hx. destruct (Hu pre rest su Hx) as (t & E). cbn [unpack_elem]. rewrite E.
+      exists v, t. split; [reflexivity|apply vrel_refl].
+  - destruct v as [| | | | | | |c'' s'| |]; cbn [elem_consistent] in Hc; try discriminate.
+    apply andb_true_iff in Hc as [Hcc Hc]. apply Z.eqb_eq in Hcc. subst c''.
+    destruct (HREC c' s' Hc) as (enc & Hwf & Hp & Hu).
+    exists enc. split; [exact Hwf|]. split.
+    + intros sp fr B Hs Hb. cbn [pack_elem]. rewrite Hs. destruct (Hp fr B Hb) as (v & fr' & E & Hb'). rewrite E.
+      exists fr'. split; [reflexivity|exact Hb'].
+    + intros pre rest su _. destruct (Hu pre rest) as (s'' & t & E & Hcan). cbn [unpack_elem]. rewrite E.
+      exists (VPkt c' s''), t. split; [reflexivity|]. split; [exact Hcan|reflexivity].
+  - destruct v; discriminate Hc.
+Qed.
+
+Lemma seq_ok (cf : lconf) (c : cid) (i : Z) (e : elem) : elem_plain e = true -> forall l : list value,
+  forallb (elem_consistent rec_cons cf e []) l = true ->
+  exists enc, wf_bytes enc /\
+    (forall sp fr B, block fr B ->
+       exists sp' fr', pack_seq host dl rec_pack cf c i e 1 l sp fr = KOk sp' fr' /\ block fr' (B ++ enc) /\
+                       (forall j, slot_get sp' (FN j) = slot_get sp (FN j))) /\
+    (forall pre rest su l0 t0, slot_get su (FN i) = Some (VList l0) ->
+       exists su' l' t,
+         unpack_count host (pre ++ enc ++ rest) (rec_unpack (pre ++ enc ++ rest)) cf c i e 1 (length l) su (blen pre) t0
+         = FOk su' (blen pre + blen enc) t /\
+         slot_get su' (FN i) = Some (VList (l0 ++ l')) /\ Forall2 (vrel ct) l' l /\
+         (forall j, j <> i -> slot_get su' (FN j) = slot_get su (FN j))).
+Proof.
+  intros Hpl. induction l as [|v r IH]; intros Hall.
+  - exists []. split; [constructor|]. split.
+    + intros sp fr B Hb. exists sp, fr. cbn [pack_seq]. rewrite app_nil_r. auto.
+    + intros pre rest su l0 t0 Hl. exists su, [], t0. cbn [unpack_count length]. rewrite DataProofs.blen_nil, Z.add_0_r, app_nil_r.
+      split; [reflexivity|]. split; [exact Hl|]. split; [constructor|reflexivity].
+  - cbn [forallb] in Hall. apply andb_true_iff in Hall as [Hv Hr].
+    destruct (elem_ok cf c (FSeqElem i) e [] v Hpl Hv) as (e1 & Hwf1 & Hp1 & Hu1).
+    destruct (IH Hr) as (e2 & Hwf2 & Hp2 & Hu2).
+    exists (e1 ++ e2). split; [apply Forall_app; split; assumption|]. split.
+    + intros sp fr B Hb. cbn [pack_seq]. rewrite seq_align_1, set_cur_same.
+      destruct (Hp1 (slot_set sp (FSeqElem i) v) fr B (slot_get_set_same _ _ _) Hb) as (fr1 & E1 & Hb1). rewrite E1.
+      destruct (Hp2 (slot_set sp (FSeqElem i) v) fr1 (B ++ e1) Hb1) as (sp' & fr2 & E2 & Hb2 & Hfn). rewrite E2.
+      exists sp', fr2. split; [reflexivity|]. split; [rewrite app_assoc; exact Hb2|].
+      intros j. rewrite Hfn. apply slot_get_set_other. discriminate.
+    + intros pre rest su l0 t0 Hl. cbn [unpack_count length]. rewrite seq_align_1.
+      rewrite <- (app_assoc e1 e2 rest).
+      destruct (Hu1 pre (e2 ++ rest) su (ext_nil ct su)) as (v' & t1 & E1 & Hv'). rewrite E1.
+      assert (Hev : elem_value (slot_set su (FSeqElem i) v') (FSeqElem i) = v').
+      { unfold elem_value. rewrite slot_get_set_same. reflexivity. }
+      rewrite Hev. unfold append_to at 1. rewrite slot_get_set_other by discriminate. rewrite Hl.
+      set (su2 := slot_set (slot_set su (FSeqElem i) v') (FN i) (VList (l0 ++ [v']))).
+      assert (Hl2 : slot_get su2 (FN i) = Some (VList (l0 ++ [v']))) by apply slot_get_set_same.
+      destruct (Hu2 (pre ++ e1) rest su2 (l0 ++ [v']) (t0 ++ t1) Hl2) as (su' & l' & t & E2 & Hl' & Hrel & Hfr).
+      rewrite <- (app_assoc pre e1 (e2 ++ rest)) in E2. rewrite DataProofs.blen_app in E2. rewrite E2.
+      exists su', (v' :: l'), t. split; [rewrite DataProofs.blen_app; f_equal; lia|].
+      split; [rewrite Hl', <- app_assoc; reflexivity|]. split; [constructor; assumption|].
+      intros j Hj. rewrite (Hfr j Hj). unfold su2. rewrite slot_get_set_other by congruence.
+      apply slot_get_set_other. discriminate.
+Qed.
+
+Lemma pack_opt_some (cf : lconf) (c : cid) (i : Z) (e : elem) (w : expr) (d : value) (sp : slots) (fr : frs)
+      (ipp : Z) (v : value) :
+  slot_get sp (FN i) = Some v -> v <> VNone ->
+  pack_field host dl rec_pack cf c (COpt i e w d) sp fr ipp =
+  pack_elem host dl rec_pack cf c (FOptElem i) e (slot_set sp (FOptElem i) v) fr.
+Proof.
+  intros G Hv. cbn [pack_field]. rewrite G. destruct v; try reflexivity. congruence.
+Qed.
+
+Lemma field_ok (cf : lconf) (c : cid) (f : cfield) (before s : slots) (v : value) :
+  cfield_plain f = true -> field_consistent rec_cons cf f before s = true -> slot_get s (cf_name f) = Some v ->
+  (exists i, cf_name f = FN i) /\
+  exists enc, wf_bytes enc /\
+    (forall sp fr B ipp, (forall j, slot_get sp (FN j) = slot_get s (FN j)) -> block fr B ->
+       exists sp' fr', pack_field host dl rec_pack cf c f sp fr ipp = KOk sp' fr' /\ block fr' (B ++ enc) /\
+                       (forall j, slot_get sp' (FN j) = slot_get sp (FN j))) /\
+    (forall pre rest su ipp, ext ct before su -> only_fn before ->
+       exists su' t,
+         unpack_field host (pre ++ enc ++ rest) (rec_unpack (pre ++ enc ++ rest)) lf cf c f su (blen pre) ipp
+         = FOk su' (blen pre + blen enc) t /\ ext ct (slot_set before (cf_name f) v) su').
+Proof.
+  intros Hpl Hc Hv. destruct f as [i arg rf al|i e|i fi la r0 sh mk nb d|i e count until when d al|i e w d|i];
+    cbn [field_consistent] in Hc; try discriminate; cbn [cf_name] in *.
+  - (* one element *)
+    split; [exists i; reflexivity|]. rewrite Hv in Hc. cbn [cfield_plain] in Hpl.
+    destruct (elem_ok cf c (FN i) e before v Hpl Hc) as (enc & Hwf & Hp & Hu).
+    exists enc. split; [exact Hwf|]. split.
+    + intros sp fr B ipp Hag Hb. cbn [pack_field]. rewrite <- (Hag i) in Hv.
+      destruct (Hp sp fr B Hv Hb) as (fr' & E & Hb'). exists sp, fr'. auto.
+    + intros pre rest su ipp Hx _. cbn [unpack_field]. destruct (Hu pre rest su Hx) as (v' & t & E & Hv').
+      exists (slot_set su (FN i) v'), t. split; [exact E|]. apply ext_set; assumption.
+  - (* counted sequence *)
+    split; [exists i; reflexivity|].
+    destruct count as [ce|]; [|discriminate]. destruct until; [discriminate|]. destruct when; [discriminate|].
+    apply andb_true_iff in Hc as [Hc Hm]. apply andb_true_iff in Hc as [Hc Hst]. apply andb_true_iff in Hc as [Hal Hloc].
+    apply Z.eqb_eq in Hal. subst al. rewrite Hv in Hm.
+    destruct v as [| | | |l| | | | |]; try discriminate.
+    destruct (eval_int (cctx (slot_set before (FN i) (VList []))) ce) as [n|] eqn:En; [|discriminate].
+    apply andb_true_iff in Hm as [Hlen Hall]. apply Z.eqb_eq in Hlen.
+    cbn [cfield_plain] in Hpl. apply andb_true_iff in Hpl as [Hple Hplc].
+    assert (Hall0 : forallb (elem_consistent rec_cons cf e []) l = true).
+    { rewrite forallb_forall in *. intros x Hx. rewrite (elem_static_before rec_cons cf e [] before x Hst). exact (Hall x Hx). }
+    destruct (seq_ok cf c i e Hple l Hall0) as (enc & Hwf & Hp & Hu).
+    exists enc. split; [exact Hwf|]. split.
+    + intros sp fr B ipp Hag Hb. cbn [pack_field]. rewrite (Hag i), Hv. exact (Hp sp fr B Hb).
+    + intros pre rest su ipp Hx Hfn.
+      assert (Hx0 : ext ct (slot_set before (FN i) (VList [])) (slot_set su (FN i) (VList []))).
+      { apply ext_set; [exact Hx|apply vrel_refl]. }
+      assert (En' : eval_int (mkctx (pre ++ enc ++ rest) (slot_set su (FN i) (VList [])) (blen pre)) ce = Ok n).
+      { exact (eval_int_sim ct (cctx (slot_set before (FN i) (VList [])))
+               (mkctx (pre ++ enc ++ rest) (slot_set su (FN i) (VList [])) (blen pre)) ce n Hx0 Hplc En). }
+      cbn [unpack_field]. rewrite En'.
+      replace (Z.to_nat n) with (length l) by lia.
+      destruct (Hu pre rest (slot_set su (FN i) (VList [])) [] [] (slot_get_set_same _ _ _)) as (su' & l' & t & E & Hl' & Hrel & Hfr).
+      rewrite E. exists su', t. split; [reflexivity|].
+      apply (ext_update ct before su su' i (VList l) (VList l') Hx Hfn).
+      * intros j Hj. rewrite (Hfr j Hj). apply slot_get_set_other. congruence.
+      * exact Hl'.
+      * apply vrel_list. exact Hrel.
+  - (* optional *)
+    split; [exists i; reflexivity|].
+    apply andb_true_iff in Hc as [Hloc Hm]. rewrite Hv in Hm.
+    cbn [cfield_plain] in Hpl. apply andb_true_iff in Hpl as [Hple Hplw].
+    destruct (eval (cctx before) w) as [cv|] eqn:Ew; [|destruct v; discriminate].
+    assert (Hcase : (v = VNone /\ truth cv = false) \/
+                    (v <> VNone /\ truth cv = true /\ elem_consistent rec_cons cf e before v = true)).
+    { destruct v; try (right; apply andb_true_iff in Hm as [A C]; split; [discriminate|split; assumption]).
+      left. split; [reflexivity|]. apply negb_true_iff. exact Hm. }
+    destruct Hcase as [[-> Htr]|(Hne & Htr & He)].
+    + exists []. split; [constructor|]. split.
+      * intros sp fr B ipp Hag Hb. cbn [pack_field]. rewrite (Hag i), Hv. exists sp, fr. rewrite app_nil_r. auto.
+      * intros pre rest su ipp Hx Hfn. cbn [unpack_field].
+        destruct (eval_truth_sim ct (cctx before) (mkctx (pre ++ [] ++ rest) su (blen pre)) w cv Hx Hplw Ew) as (cv' & Ew' & Ht).
+        rewrite Ew', Ht, Htr. exists (slot_set su (FN i) VNone), []. rewrite DataProofs.blen_nil, Z.add_0_r.
+        split; [reflexivity|]. apply ext_set; [exact Hx|apply vrel_refl].
+    + destruct (elem_ok cf c (FOptElem i) e before v Hple He) as (enc & Hwf & Hp & Hu).
+      exists enc. split; [exact Hwf|]. split.
+      * intros sp fr B ipp Hag Hb. rewrite <- (Hag i) in Hv. rewrite (pack_opt_some cf c i e w d sp fr ipp v Hv Hne).
+        destruct (Hp (slot_set sp (FOptElem i) v) fr B (slot_get_set_same _ _ _) Hb) as (fr' & E & Hb').
+        exists (slot_set sp (FOptElem i) v), fr'. split; [exact E|]. split; [exact Hb'|].
+        intros j. apply slot_get_set_other. discriminate.
+      * intros pre rest su ipp Hx Hfn. cbn [unpack_field].
+        destruct (eval_truth_sim ct (cctx before) (mkctx (pre ++ enc ++ rest) su (blen pre)) w cv Hx Hplw Ew) as (cv' & Ew' & Ht).
+        rewrite Ew', Ht, Htr. destruct (Hu pre rest su Hx) as (v' & t & E & Hv'). rewrite E.
+        unfold elem_value. rewrite slot_get_set_same.
+        eexists. exists t. split; [reflexivity|].
+        apply (ext_update ct before su _ i v v' Hx Hfn).
+        -- intros j Hj. rewrite slot_get_set_other by congruence. apply slot_get_set_other. discriminate.
+        -- apply slot_get_set_same.
+        -- exact Hv'.
+Qed.
+
+Lemma fields_ok (cf : lconf) (c : cid) : forall (fs : list cfield) (before s : slots),
+  forallb cfield_plain fs = true -> fields_consistent rec_cons cf fs before s = true -> only_fn before -> sub before s ->
+  exists enc, wf_bytes enc /\
+    (forall sp fr B ipp, (forall j, slot_get sp (FN j) = slot_get s (FN j)) -> block fr B ->
+       exists v fr', pack_fields host dl rec_pack cf c fs sp fr ipp = QOk v fr' /\ block fr' (B ++ enc)) /\
+    (forall pre rest su ipp t0, ext ct before su ->
+       exists su' t,
+         unpack_fields host (pre ++ enc ++ rest) (rec_unpack (pre ++ enc ++ rest)) lf cf c fs su (blen pre) ipp t0
+         = POk (VPkt c su') (blen pre + blen enc) t /\ ext ct before su' /\
+         forall f, In f (map cf_name fs) -> exists v v', slot_get s f = Some v /\ slot_get su' f = Some v' /\ vrel ct v' v).
+Proof.
+  induction fs as [|f r IH]; intros before s Hpl Hc Hfn Hsub.
+  - exists []. split; [constructor|]. split.
+    + intros sp fr B ipp _ Hb. cbn [pack_fields]. exists (VPkt c sp), fr. rewrite app_nil_r. auto.
+    + intros pre rest su ipp t0 Hx. cbn [unpack_fields]. exists su, t0. rewrite DataProofs.blen_nil, Z.add_0_r.
+      split; [reflexivity|]. split; [exact Hx|]. intros f [].
+  - cbn [forallb] in Hpl. apply andb_true_iff in Hpl as [Hplf Hplr].
+    cbn [fields_consistent] in Hc. apply andb_true_iff in Hc as [Hcf Hcr].
+    destruct (slot_get s (cf_name f)) as [v|] eqn:Hv; [|discriminate].
+    destruct (field_ok cf c f before s v Hplf Hcf Hv) as ([i Hname] & e1 & Hwf1 & Hp1 & Hu1).
+    assert (Hfn1 : only_fn (slot_set before (cf_name f) v)). { rewrite Hname. apply only_fn_set. exact Hfn. }
+    assert (Hsub1 : sub (slot_set before (cf_name f) v) s). { apply sub_set; assumption. }
+    destruct (IH (slot_set before (cf_name f) v) s Hplr Hcr Hfn1 Hsub1) as (e2 & Hwf2 & Hp2 & Hu2).
+    exists (e1 ++ e2). split; [apply Forall_app; split; assumption|]. split.
+    + intros sp fr B ipp Hag Hb. cbn [pack_fields].
+      destruct (Hp1 sp fr B ipp Hag Hb) as (sp1 & fr1 & E1 & Hb1 & Hk). rewrite E1.
+      assert (Hag1 : forall j, slot_get sp1 (FN j) = slot_get s (FN j)). { intros j. rewrite Hk. apply Hag. }
+      destruct (Hp2 sp1 fr1 (B ++ e1) ipp Hag1 Hb1) as (v2 & fr2 & E2 & Hb2). rewrite E2.
+      exists v2, fr2. split; [reflexivity|]. rewrite app_assoc. exact Hb2.
+    + intros pre rest su ipp t0 Hx. cbn [unpack_fields]. rewrite <- (app_assoc e1 e2 rest).
+      destruct (Hu1 pre (e2 ++ rest) su ipp Hx Hfn) as (su1 & t1 & E1 & Hx1). rewrite E1.
+      destruct (Hu2 (pre ++ e1) rest su1 ipp (t0 ++ t1) Hx1) as (su' & t & E2 & Hx2 & Hall).
+      rewrite <- (app_assoc pre e1 (e2 ++ rest)) in E2. rewrite DataProofs.blen_app in E2. rewrite E2.
+      exists su', t. split; [rewrite DataProofs.blen_app; f_equal; lia|].
+      assert (Hxb : ext ct before su').
+      { intros g w Eg. apply (Hx2 g w). rewrite slot_get_set. destruct (fname_eqb_spec g (cf_name f)) as [->|_]; [|exact Eg].
+        pose proof (Hsub _ _ Eg) as Es. congruence. }
+      split; [exact Hxb|].
+      intros g [<-|Hin]; [|exact (Hall g Hin)].
+      destruct (Hx2 (cf_name f) v (slot_get_set_same _ _ _)) as (v' & Ev' & Hrel). exists v, v'. auto.
+Qed.
+End Level.
+
+(* ------------------------------------------------------------------------------------------ *)
+(** * All levels: induction on the fuel                                                        *)
+(* ------------------------------------------------------------------------------------------ *)
+
+Theorem pkt_all (host : bool) (dl : dstate) (ct : ctab) : ct_plain ct = true -> forall fuel c s,
+  consistent fuel ct c s = true ->
+  pkt_ok ct (pack_pkt fuel host dl ct) (fun raw => unpack_pkt fuel host ct raw) c s.
+Proof.
+  intros Hpl. induction fuel as [|fuel IH]; intros c s Hc; [discriminate|].
+  cbn [consistent] in Hc. destruct (ct_get ct c) as [k|] eqn:Hk; [|discriminate].
+  pose proof (ct_get_forallb class_plain ct c k Hpl Hk) as Hkp. unfold class_plain in Hkp.
+  assert (Hfn0 : only_fn []). { intros f v E. discriminate E. }
+  assert (Hsub0 : sub [] s). { intros f v E. discriminate E. }
+  destruct (fields_ok host dl ct (pack_pkt fuel host dl ct) (fun raw => unpack_pkt fuel host ct raw) (consistent fuel ct) fuel IH
+              (cc_conf k) c (cc_fields k) [] s Hkp Hc Hfn0 Hsub0) as (enc & Hwf & Hp & Hu).
+  exists enc. split; [exact Hwf|]. split.
+  - intros fr B Hb. cbn [pack_pkt]. rewrite Hk. exact (Hp s fr B (cur fr) (fun j => eq_refl) Hb).
+  - intros pre rest. cbn [unpack_pkt]. rewrite Hk.
+    destruct (Hu pre rest [] (blen pre) [] (ext_nil ct [])) as (su' & t & E & _ & Hall).
+    exists su', t. split; [exact E|]. apply (canon_pkt_eq ct c s su' k Hk).
+    intros f Hin. destruct (Hall f Hin) as (v & v' & A & B & Hc' & _). exists v, v'. auto.
+Qed.
+
+(* ------------------------------------------------------------------------------------------ *)
+(** * C02 for the sequential sublanguage                                                       *)
+(* ------------------------------------------------------------------------------------------ *)
+
+(* the statement of notes/stmts/S7_pack_unpack.v with the added hypothesis ct_plain (see the refutations below);
+   ct_distinct and wf_bytes rest are kept from the statement although the proof does not need them *)
+Theorem pack_unpack_sequential : forall fuel host dl ct c s rest,
+  ct_distinct ct = true -> ct_plain ct = true -> consistent fuel ct c s = true -> wf_bytes rest ->
+  exists out v', pack_top fuel host dl ct c s = PBytes out v' /\ wf_bytes out /\
+    exists s' t, unpack_pkt fuel host ct (out ++ rest) c 0 = POk (VPkt c s') (blen out) t /\
+                 visible ct (VPkt c s') = visible ct (VPkt c s).
+Proof.
+  intros fuel host dl ct c s rest _ Hpl Hc _.
+  destruct (pkt_all host dl ct Hpl fuel c s Hc) as (enc & Hwf & Hp & Hu).
+  destruct (Hp empty [] block_empty) as (v' & fr' & E & Hb). cbn [app] in Hb.
+  exists enc, v'. split.
+  - unfold pack_top. rewrite E. rewrite (block_tobytes fr' enc Hb). reflexivity.
+  - split; [exact Hwf|]. destruct (Hu [] rest) as (s' & t & E' & Hcan). cbn [app] in E'.
+    rewrite DataProofs.blen_nil, Z.add_0_l in E'. exists s', t. split; [exact E'|exact Hcan].
+Qed.
+
+(* ------------------------------------------------------------------------------------------ *)
+(** * Refutations: the statement without ct_plain is false                                     *)
+(* ------------------------------------------------------------------------------------------ *)
+
+Definition S7_as_stated : Prop := forall fuel host dl ct c s rest,
+  ct_distinct ct = true -> consistent fuel ct c s = true -> wf_bytes rest ->
+  exists out v', pack_top fuel host dl ct c s = PBytes out v' /\ wf_bytes out /\
+    exists s' t, unpack_pkt fuel host ct (out ++ rest) c 0 = POk (VPkt c s') (blen out) t /\
+                 visible ct (VPkt c s') = visible ct (VPkt c s).
+
+Definition pu_mk (fs : list cfield) : cclass :=
+  {| cc_conf := empty_conf; cc_gen_pack := false; cc_gen_unpack := false; cc_vectorize := false; cc_fields := fs |}.
+
+(* (a) leaf_consistent never looks at the bytes of a marker that is not kept: the output is not a byte string *)
+Definition pu_ct1 : ctab := [(0, pu_mk [CElem 0 (ELeafE (LDataMarker [300] false VNone))])].
+Definition pu_s1 : slots := [(FN 0, VBytes [])].
+Example refute_marker : ct_plain pu_ct1 = false /\ ~ S7_as_stated.
+Proof.
+  split; [reflexivity|]. intros H.
+  destruct (H 3%nat true no_delims pu_ct1 0 pu_s1 [] eq_refl eq_refl (Forall_nil _)) as (out & v' & E & Hwf & _).
+  vm_compute in E. injection E as <- _. inversion Hwf as [|x l Hx _]. unfold wf_byte in Hx. lia.
+Qed.
+
+(* (b) EAttr reads an attribute of the nested packet value that its class does not declare: the re-parsed nested
+   packet does not have it (the same happens with the hidden attributes, which only some packet values hold) *)
+Definition pu_ct2 : ctab :=
+  [(0, pu_mk [CElem 0 (ERefPkt 1 []); CElem 1 (ELeafE (LDataSized (EAttr (EField (FN 0)) (FN 7)) false VNone))]);
+   (1, pu_mk [CElem 0 (ELeafE (LInt 1 false None VNone))])].
+Definition pu_s2 : slots := [(FN 0, VPkt 1 [(FN 0, VInt 1); (FN 7, VInt 2)]); (FN 1, VBytes [65; 66])].
+Example refute_attr : ct_plain pu_ct2 = false /\ ~ S7_as_stated.
+Proof.
+  split; [reflexivity|]. intros H.
+  destruct (H 3%nat true no_delims pu_ct2 0 pu_s2 [] eq_refl eq_refl (Forall_nil _)) as (out & v' & E & _ & s' & t & E' & _).
+  vm_compute in E. injection E as <- _. vm_compute in E'. discriminate E'.
+Qed.
+
+(* ------------------------------------------------------------------------------------------ *)
+(** * Non-vacuity: a declaration and a value with every construct of the sublanguage           *)
+(* ------------------------------------------------------------------------------------------ *)
+
+Definition pu_ct3 : ctab :=
+  [(0, pu_mk [CElem 0 (ELeafE (LInt 1 false None VNone));
+              CElem 1 (ELeafE (LDataSized (EField (FN 0)) false VNone));
+              CSeq 2 (ERefPkt 1 []) (Some (EField (FN 0))) None None (VList []) 1;
+              COpt 3 (ELeafE (LInt 2 true (Some ELittle) VNone)) (EBin Gt (EUn Len (EField (FN 2))) (ELit (VInt 1))) VNone;
+              COpt 4 (ELeafE (LInt 1 false None VNone)) (EBin Eq (EField (FN 0)) (ELit (VInt 0))) VNone;
+              CElem 5 (ELeafE (LDataMarker [13; 10] true VNone));
+              CElem 6 (ERefPkt 1 [])]);
+   (1, pu_mk [CElem 0 (ELeafE (LInt 1 false None VNone));
+              CElem 1 (ELeafE (LDataMarker [0] false VNone))])].
+Definition pu_inner (a : Z) (b : bytes) : value := VPkt 1 [(FN 1, VBytes b); (FN 0, VInt a); (FOptElem 9, VNone)].
+Definition pu_s3 : slots :=
+  [(FN 0, VInt 2); (FN 1, VBytes [7; 8]); (FN 2, VList [pu_inner 1 [65]; pu_inner 2 []]); (FN 3, VInt (-2));
+   (FN 4, VNone); (FN 5, VBytes [72; 13; 10]); (FN 6, pu_inner 3 [66; 67])].
+Example pu_ex_hyps : ct_distinct pu_ct3 = true /\ ct_plain pu_ct3 = true /\ consistent 3 pu_ct3 0 pu_s3 = true.
+Proof. repeat split; reflexivity. Qed.
+Example pu_ex_run :
+  pack_top 3 true no_delims pu_ct3 0 pu_s3
+  = PBytes [2; 7; 8; 1; 65; 0; 2; 0; 254; 255; 72; 13; 10; 3; 66; 67; 0]
+           (VPkt 0 (pu_s3 ++ [(FSeqElem 2, pu_inner 2 []); (FOptElem 3, VInt (-2))])) /\
+  match unpack_pkt 3 true pu_ct3 ([2; 7; 8; 1; 65; 0; 2; 0; 254; 255; 72; 13; 10; 3; 66; 67; 0] ++ [9; 9]) 0 0 with
+  | POk v o _ => o = 17 /\ visible pu_ct3 v = visible pu_ct3 (VPkt 0 pu_s3) /\ v <> VPkt 0 pu_s3
+  | _ => False
+  end.
+Proof. split; [vm_compute; reflexivity|]. vm_compute. repeat split. discriminate. Qed.
+
+Print Assumptions pack_unpack_sequential.
+Print Assumptions refute_marker.
+Print Assumptions refute_attr.
